@@ -17,6 +17,7 @@ import OFV.Proofs.C18Pws5
 import OFV.Proofs.C18Binned
 import OFV.Proofs.C18Valid
 import OFV.Proofs.C18Explicit
+import OFV.Proofs.C18Helpers
 
 namespace OFV.C18
 open OFV.Model.C18 OFV.Spec.C18 OFV.Proofs.C18
@@ -289,5 +290,23 @@ theorem partition_iterator_explicit_spec (l : List Nat) (hnd : l.Nodup) (k : Nat
 
 example : splitsAll [0, 1, 2, 3, 4, 5, 6] 3 (partitionIter [0, 1, 2, 3, 4, 5, 6] 3 (some 4)) = true :=
   partition_iterator_explicit_spec _ (by decide) 3 (by decide) 4 (by decide) (by decide)
+
+/-! ### helper generators -/
+
+/-- `_gen_partitions(labels, min_size)`, every label list and every `min_size`: every yielded level is a partition of
+`labels` into contiguous parts (concatenating the parts gives `labels` back), is non-empty, and — for at least two
+labels — has part sizes that differ by at most one with a largest part last (what the size tests of the callers
+rely on). -/
+theorem gen_partitions_spec (labels : List Nat) (ms : Nat) :
+    ∀ x ∈ genPartitions labels ms, x.flatten = labels ∧ x ≠ []
+      ∧ (2 ≤ labels.length → OFV.Proofs.C18Pws.Balanced x) :=
+  OFV.Proofs.C18Helpers.genPartitions_spec labels ms
+
+/-- `_parallel_iter(iterators, flatten=True)`: the yields are exactly the non-empty rows `k` — the `k`-th results of
+all iterators that still have one, concatenated in iterator order — for `k` below the longest length. -/
+theorem parallel_iter_spec (its : List (List (List Nat))) (r : List Nat) :
+    r ∈ parallelIter its ↔
+      r ≠ [] ∧ ∃ k, k < its.foldl (fun acc l => max acc l.length) 0 ∧ r = its.flatMap (fun l => l.getD k []) :=
+  OFV.Proofs.C18Helpers.parallelIter_spec its r
 
 end OFV.C18
